@@ -1331,6 +1331,15 @@ class FnTranslator:
             return
         self.err("expression statement outside the translated subset (only `assert!`, `assert_eq!`, `v.push(e)`)", e)
 
+    def unit_block(self, b):
+        """a block used as a statement (loop body): a trailing `if … {…} else {…}` without `;` is a statement, any other
+        trailing expression would be a discarded value"""
+        if b.tail is None:
+            return b
+        if b.tail.kind == "if":
+            return N("block", b.pos, stmts=b.stmts + [N("ifs", b.tail.pos, e=b.tail)], tail=None)
+        self.err("value of the block is discarded", b.tail)
+
     def outer_vars(self, names, node):
         vs = []
         for nm in names:
@@ -1419,9 +1428,7 @@ class FnTranslator:
             if not isinstance(ct, TBool):
                 self.err("condition of type %r" % (ct,), s.cond)
             th = Code()
-            if s.body.tail is not None:
-                self.err("value of the loop body is discarded", s.body.tail)
-            self.block(s.body, th, False)
+            self.block(self.unit_block(s.body), th, False)
             th.final = ("call", "%s%s%s fuel %s" % (name, self.abs_args(), "".join(" " + v.lean for v in caps),
                                                    tuple_val([v.lean for v in state])))
             el = Code()
@@ -1570,9 +1577,7 @@ class FnTranslator:
         acc = None
         try:
             body = Code()
-            if s.body.tail is not None:
-                self.err("value of the loop body is discarded", s.body.tail)
-            self.block(s.body, body, False)
+            self.block(self.unit_block(s.body), body, False)
             st_names = [v.lean for v in state]
             if it_mut:
                 acc = seq_var.lean + "'"
@@ -1616,34 +1621,16 @@ class FnTranslator:
             params.append(v)
         ret = self.ty_of_text(sp["ret"]) if sp.get("ret") else TUnit()
         self.tail_expected = ret
-        # `return e;` as the very last statement is the tail
-        if body.stmts and body.stmts[-1].kind == "return" and body.tail is None:
-            r = body.stmts.pop()
-            body.tail = r.e
         code = Code()
         # self fields assigned by the body are returned (in spec order), before the declared return value
-        assigned_self = [a for a in self.assigned(body) if a.startswith("self.")]
+        # ... and so are `&mut` parameters the body writes to (after the fields, in parameter order)
+        all_assigned = self.assigned(body)
+        mut_params = [nm for nm, ty in sp["params"] if ty.replace(" ", "").startswith("&mut")]
+        assigned_self = [a for a in all_assigned if a.startswith("self.") or a in mut_params]
         ret_fields = [v for v in params if v.rust in assigned_self]
+        self.ret, self.ret_fields = ret, ret_fields
         self.scopes.append({})
-        tail = None
-        try:
-            for idx, s in enumerate(body.stmts):
-                self.stmt(s, code, False)
-            if body.tail is not None:
-                tail = self.expr(body.tail, code, ret if not isinstance(ret, TUnit) else None)
-        finally:
-            pass
-        outs, out_tys = [v.lean for v in ret_fields], [v.ty for v in ret_fields]
-        if tail is not None:
-            if isinstance(ret, TUnit):
-                self.err("the function has a tail expression but the spec declares no return type", body.tail)
-            if not ty_compatible(tail[1], ret):
-                self.err("the tail expression has type %r, the spec declares %r" % (tail[1], ret), body.tail)
-            outs.append(tail[0])
-            out_tys.append(tail[1])
-        elif not isinstance(ret, TUnit):
-            self.err("the spec declares the return type %r but the function body has no tail expression" % (ret,))
-        code.final = ("pure", tuple_val(outs))
+        out_tys = self.seq(body.stmts, body.tail, code, body)
         self.scopes.pop()
         absf = "".join(" (%s : %s)" % (f, self.abs_sig(f)) for f in self.absfn_params())
         sig = "def %s%s%s : Res %s :=" % (self.lean_fn, absf,
@@ -1653,7 +1640,52 @@ class FnTranslator:
         emit_code(code, 2, lines)
         # fewer `while` loops than fuel expressions: the text changed shape; the translation is still determined (the
         # surplus expressions are unused), the equality theorem decides.  More loops than expressions was an error above.
-        return self.helpers, "\n".join(lines), [v for v in ret_fields], tail
+        return self.helpers, "\n".join(lines), [v for v in ret_fields], None
+
+    def seq(self, stmts, tail_node, code, where):
+        """the statements of the function body (or of the rest of it after an early `return`): sets `code.final`,
+        returns the types of the returned tuple.  An early return `if c { …; return e; }` at this level becomes
+        `if c then do …; pure e else do <rest of the function>`; a `return` anywhere else (in a loop, in a nested `if`
+        with an `else`) is refused by `stmt`."""
+        for idx, st in enumerate(stmts):
+            if st.kind == "return":
+                if idx != len(stmts) - 1 or tail_node is not None:
+                    self.err("statements after `return`", st)
+                return self.finish(st.e, code, st)
+            if st.kind == "ifs" and st.e.els is None and st.e.then.tail is None and st.e.then.stmts \
+                    and st.e.then.stmts[-1].kind == "return":
+                e = st.e
+                c, ct = self.expr(e.cond, code, TBool())
+                if not isinstance(ct, TBool):
+                    self.err("condition of type %r" % (ct,), e.cond)
+                th = Code()
+                self.scopes.append({})
+                tys1 = self.seq(e.then.stmts, None, th, e.then)
+                self.scopes.pop()
+                el = Code()
+                tys2 = self.seq(stmts[idx + 1:], tail_node, el, where)
+                if tys1 != tys2:
+                    self.err("early `return` of type %r, the function returns %r" % (tys1, tys2), st)
+                code.final = ("if", c, th, el)
+                return tys2
+            self.stmt(st, code, False)
+        return self.finish(tail_node, code, where)
+
+    def finish(self, e, code, where):
+        ret, ret_fields = self.ret, self.ret_fields
+        outs, out_tys = [self.lookup(v.rust, where).lean for v in ret_fields], [v.ty for v in ret_fields]
+        if e is not None:
+            if isinstance(ret, TUnit):
+                self.err("the function returns a value but the spec declares no return type", e)
+            val, t = self.expr(e, code, ret)
+            if not ty_compatible(t, ret):
+                self.err("the returned expression has type %r, the spec declares %r" % (t, ret), e)
+            outs.append(val)
+            out_tys.append(t)
+        elif not isinstance(ret, TUnit):
+            self.err("the spec declares the return type %r but the function body ends without a value" % (ret,), where)
+        code.final = ("pure", tuple_val(outs))
+        return out_tys
 
 
 def ty_compatible(a, b):
@@ -1857,11 +1889,166 @@ unit(name="SrcBwt", props="property C04", file="src/data_structures/bwt.rs",
                      theorem="RbV.Thm.GenSrcBwt.bwt_eq_model")])
 
 
+unit(name="SrcPrescan", props="property C04", file="src/utils/mod.rs",
+     generics={"T": "α"},
+     functions=[dict(name="prescan", lean="prescan",
+                     header="pub fn prescan<T: Copy, F: Fn(T, T) -> T>(a: &mut [T], neutral: T, op: F)",
+                     # `op: F` is the abstract operation (a leading parameter of the translated function)
+                     abstract_fns={"op": dict(lean="op", args=["T", "T"], ret="T")},
+                     params=[("a", "&mut [T]"), ("neutral", "T")], ret=None,
+                     theorem="RbV.Thm.GenSrcPrescan.prescan_eq_model")])
+
+
+# ================================================================================================== self-test
+
+SELFTEST_RS = r"""
+// synthetic functions exercising the subset (tools/rs2lean.py --selftest)
+pub fn find_first(xs: &[u32], key: u32) -> usize {
+    let n = xs.len();
+    if n == 0 {
+        return 0;
+    }
+    let mut pos = n;
+    for i in (0..n).rev() {
+        if xs[i] == key {
+            pos = i;
+        } else if xs[i] > key && pos == n {
+            pos = n;
+        }
+    }
+    pos
+}
+
+pub fn squares(k: u8) -> Vec<u8> {
+    let mut out: Vec<u8> = Vec::new();
+    for i in 0..=k {
+        out.push(i.wrapping_mul(i));
+    }
+    out
+}
+
+pub fn digits(mut x: u64) -> Vec<u64> {
+    let mut d: Vec<u64> = Vec::new();
+    while x > 0 {
+        d.push(x % 10);
+        x /= 10;
+    }
+    d
+}
+
+pub fn checksum(data: &[u8], modulus: u32) -> u32 {
+    assert!(modulus > 0, "modulus");
+    let mut acc = 0u32;
+    for (i, &b) in data.iter().enumerate() {
+        acc = (acc * 31 + u32::from(b) + (i as u32 & 0xff)) % modulus;
+        acc ^= !acc >> 7;
+    }
+    acc
+}
+"""
+
+SELFTEST_UNIT = dict(
+    name="SrcSelfTest", props="self-test", file="src/selftest.rs",
+    functions=[
+        dict(name="find_first", lean="findFirst", header="pub fn find_first(xs: &[u32], key: u32) -> usize",
+             params=[("xs", "&[u32]"), ("key", "u32")], ret="usize"),
+        dict(name="squares", lean="squares", header="pub fn squares(k: u8) -> Vec<u8>", params=[("k", "u8")], ret="Vec<u8>"),
+        dict(name="digits", lean="digits", header="pub fn digits(mut x: u64) -> Vec<u64>", params=[("x", "u64")],
+             ret="Vec<u64>", fuel=["x + 1"]),
+        dict(name="checksum", lean="checksum", header="pub fn checksum(data: &[u8], modulus: u32) -> u32",
+             params=[("data", "&[u8]"), ("modulus", "u32")], ret="u32"),
+    ])
+
+# (statement text placed in a function `fn f(v: &[u8], n: usize) -> usize { … }`, substring expected in the refusal)
+SELFTEST_REFUSED = [
+    ("loop { break; } n", "`loop`"),
+    ("match n { 0 => 1, _ => 2 }", "`match`"),
+    ("let c = |a: usize| a + 1; c(n)", "closure"),
+    ("let q = 3; n + q", "cannot be read off the text"),
+    ("for i in 0..n { if v[i] == 0 { return i; } } n", "`return` is only translated"),
+    ("let x = v.iter().map(|b| *b as usize).sum::<usize>(); x", "closure|turbofish"),
+    ("while n > 0 { } n", "no fuel expression"),
+    ("let s = v[1..3]; n", "sub-slice"),
+    ("let k = n as isize; let j = k + k; n", "signed type"),
+    ("let k = n as isize; if k < 0 { return 0; } n", "signed values"),
+    ("let w = n as i64; let k = w as i128; n", "i128"),
+    ("n?", "`?` operator"),
+    ("unsafe { n }", "`unsafe`"),
+    ("let t = (n, n); t.0", "tuple field access"),
+    ("n.pow(2)", "method `.pow"),
+    ("let mut n2 = n; { let n2 = 1usize; } n2", "block expression|unexpected"),
+]
+
+
+def selftest(with_lean):
+    import tempfile, subprocess, shutil
+    sys.path.insert(0, os.path.dirname(os.path.abspath(__file__)))
+    import gen_tables
+
+    class Refused(Exception):
+        pass
+
+    def refuse(msg):
+        raise Refused(msg)
+    tmp = tempfile.mkdtemp(prefix="rs2lean-selftest-")
+    ok = True
+    try:
+        os.makedirs(os.path.join(tmp, "src"))
+        with open(os.path.join(tmp, "src", "selftest.rs"), "w") as f:
+            f.write(SELFTEST_RS)
+        src = gen_tables.Src(tmp, "src/selftest.rs")
+        text, _ = translate_unit(src, SELFTEST_UNIT, refuse)
+        text2, _ = translate_unit(src, SELFTEST_UNIT, refuse)
+        if text != text2:
+            print("selftest: translation is not deterministic")
+            ok = False
+        checks = ["#eval findFirst [5, 7, 7, 9] 7   -- ok 1", "#eval findFirst [] 7   -- ok 0",
+                  "#eval squares 17   -- ok [0, 1, 4, …, 225, 0, 33]", "#eval digits 9075   -- ok [5, 7, 0, 9]",
+                  "#eval checksum [1, 2, 3] 1000003", "#eval checksum [1, 2, 3] 0   -- panic (assert!)"]
+        lean_text = text.replace("end RbV.Gen.SrcSelfTest", "\n".join(checks) + "\nend RbV.Gen.SrcSelfTest")
+        if with_lean:
+            lf = os.path.join(tmp, "SelfTest.lean")
+            with open(lf, "w") as f:
+                f.write(lean_text)
+            lean_dir = os.path.join(os.path.dirname(os.path.dirname(os.path.abspath(__file__))), "lean")
+            p = subprocess.run(["lake", "env", "lean", lf], cwd=lean_dir, stdout=subprocess.PIPE, stderr=subprocess.STDOUT,
+                               text=True, timeout=600)
+            print(p.stdout.strip())
+            want = ["RbV.Rs.Res.ok 1", "RbV.Rs.Res.ok 0", "225, 0, 33]", "RbV.Rs.Res.ok [5, 7, 0, 9]", "RbV.Rs.Res.panic"]
+            if p.returncode != 0 or any(w not in p.stdout for w in want):
+                print("selftest: the generated Lean does not compile or evaluates differently")
+                ok = False
+        else:
+            sys.stdout.write(lean_text)
+        for body, expect in SELFTEST_REFUSED:
+            with open(os.path.join(tmp, "src", "selftest.rs"), "w") as f:
+                f.write("fn f(v: &[u8], n: usize) -> usize {\n    %s\n}\n" % body)
+            u = dict(name="SrcNeg", props="self-test", file="src/selftest.rs",
+                     functions=[dict(name="f", lean="f", header="fn f(v: &[u8], n: usize) -> usize",
+                                     params=[("v", "&[u8]"), ("n", "usize")], ret="usize")])
+            try:
+                translate_unit(gen_tables.Src(tmp, "src/selftest.rs"), u, refuse)
+                print("selftest: NOT refused: %s" % body)
+                ok = False
+            except Refused as r:
+                if not re.search(expect, str(r)):
+                    print("selftest: refused for another reason: %s: %s" % (body, r))
+                    ok = False
+    finally:
+        shutil.rmtree(tmp, ignore_errors=True)
+    print("selftest: " + ("ok" if ok else "FAILED"))
+    sys.exit(0 if ok else 1)
+
+
 def main():
     ap = argparse.ArgumentParser()
     ap.add_argument("--repo", default=os.environ.get("VERIF_REPO", "/repo"))
-    ap.add_argument("--unit", required=True, help="one of: " + ", ".join(sorted(UNITS)))
+    ap.add_argument("--unit", help="one of: " + ", ".join(sorted(UNITS)))
+    ap.add_argument("--selftest", action="store_true", help="translate built-in snippets; refuse built-in non-subset ones")
+    ap.add_argument("--lean", action="store_true", help="with --selftest: also compile and evaluate the result with lean")
     a = ap.parse_args()
+    if a.selftest:
+        selftest(a.lean)
     sys.path.insert(0, os.path.dirname(os.path.abspath(__file__)))
     import gen_tables
     if a.unit not in UNITS:
